@@ -13,10 +13,75 @@ RULE = ('random histories of 2-5 connections over two permission tables: per-con
 PLAN = [(30, 400, dict(scenario='store_change'), False), (20, 300, dict(scenario='reauth_stale'), True), (100, 2500, dict(profile='hostile'), False), (100, 2500, dict(profile='hostile', chunking='frames'), True), (50, 1000, dict(profile='mixed'), False)]
 
 
+def nosecret_probe(rng):
+    """the real broker with a store whose rows have no usable secret (the key is missing, or None as a NULL column gives):
+    no digest whatever may authenticate such an identity - in particular not SHA1(nonce) alone - and nothing pipelined
+    behind the OP_AUTH may take effect.  (Such rows are outside the Coq model, whose rows always carry a secret.)"""
+    import asyncio
+    import hashlib
+    import broker
+    import hpfeeds.protocol as P
+    from vloop import VLoop
+    from hpfeeds.broker.server import Server
+    from hpfeeds.broker.connection import Connection
+    loop = VLoop()
+    asyncio.set_event_loop(loop)
+    try:
+        table = {'alice': dict(secret='s3cret', owner='o', pubchans=['x'], subchans=['x']),
+                 'nokey': dict(owner='o', pubchans=['x'], subchans=['x']),
+                 'null': dict(secret=None, owner='o', pubchans=['x'], subchans=['x'])}
+        srv = Server(auth=broker.FutStore(table, False, loop), name='hpfeeds')
+        la = Connection(srv)
+        lt = broker.SimTransport(0)
+        loop.call(la.connection_made, lt)
+        loop.call(la.data_received, P.msgauth(bytes(la.authrand), 'alice', 's3cret') + P.msgsubscribe('alice', 'x'))
+        n0 = len(broker.split_frames(lt.out)[0])
+        for q in range(1, 9):
+            c = Connection(srv)
+            t = broker.SimTransport(q)
+            loop.call(c.connection_made, t)
+            ident = rng.choice(['nokey', 'null'])
+            nonce = bytes(c.authrand)
+            dg = rng.choice([hashlib.sha1(nonce).digest(), hashlib.sha1(nonce + b'None').digest(), hashlib.sha1(nonce + b'').digest(),
+                             b'', bytes(20), hashlib.sha1(b'').digest()])
+            frames = [broker.auth_frame(ident, dg), P.msgsubscribe(ident, 'x'), P.msgpublish(ident, 'x', b'forged')]
+            try:
+                if rng.random() < 0.5:
+                    loop.call(c.data_received, b''.join(frames))
+                else:
+                    for f in frames:
+                        if not t.closing:
+                            loop.call(c.data_received, f)
+            except Exception:
+                t.abort()          # an exception escaping data_received: asyncio drops the transport
+            loop.idle()
+            if c.ak is not None or c.active_subscriptions:
+                return ('connection %d counts as %r (subscribed %r) although the store holds no usable secret for it (digest %s)'
+                        % (q, c.ak, sorted(c.active_subscriptions), dg.hex()[:16]))
+            if len(broker.split_frames(lt.out)[0]) != n0:
+                return 'a PUBLISH from connection %d (identity %r without a usable secret) was delivered' % (q, ident)
+            if not t.closing:
+                return 'connection %d presented an OP_AUTH for %r (no usable secret) and was not disconnected' % (q, ident)
+        return None
+    finally:
+        loop.shutdown()
+        asyncio.set_event_loop(None)
+
+
 def run(ctx, res):
+    if ctx.scale == 1:
+        for k in range(ctx.n(6, 60)):
+            p = nosecret_probe(ctx.rng('nosecret%d' % k))
+            res.evaluations += 1
+            res.count('nosecret_probe')
+            if p:
+                res.failures.append(dict(signature='C02: no usable secret', what=p, case=dict(probe='nosecret', k=k)))
+                break
     res.rule = RULE % ASPECTS
     B.run(ctx, res, 'C02', ASPECTS, PLAN)
 
 
 def replay(ctx, case):
+    if isinstance(case, dict) and case.get('probe') == 'nosecret':
+        return nosecret_probe(ctx.rng('nosecret%d' % case['k']))
     return B.replay_case('C02', case)
